@@ -29,6 +29,10 @@ impl Rng {
     pub fn bytes(&mut self, n: usize) -> Vec<u8> {
         (0..n).map(|_| self.byte()).collect()
     }
+    pub fn bytes_below(&mut self, n: u64) -> Vec<u8> {
+        let l = self.below(n) as usize;
+        self.bytes(l)
+    }
     pub fn pick<'a, T>(&mut self, xs: &'a [T]) -> &'a T {
         &xs[self.below(xs.len() as u64) as usize]
     }
